@@ -209,6 +209,8 @@ def check(prop, tier='quick', seed=0, runs=None, jobs=None, budget_s=None,
             viols.append(r)
     # classify violations
     new_viols, known_hits = [], {}
+    for r in records:
+        merge_counts(known_hits, r.get('known_hits'))
     os.makedirs(os.path.join(VERIF, 'replays'), exist_ok=True)
     seen_sigs = {}
     for r in viols:
